@@ -56,6 +56,14 @@ Deschedule(t) ==
     /\ where' = [where EXCEPT ![t] = None]
     /\ UNCHANGED <<time, dl, expired, schedAt>>
 
+\* a read extends the deadline of a scheduled timer in place; its event may be dropped by the lossy read buffer, so the
+\* timer is NOT moved - the next sweep that passes its bucket re-schedules it ("provided reads only ever extend deadlines")
+Extend(t, d) ==
+    /\ where[t] # None
+    /\ d > dl[t]
+    /\ dl' = [dl EXCEPT ![t] = d]
+    /\ UNCHANGED <<time, where, expired, schedAt>>
+
 \* slots visited at level i when the clock moves from prev to cur
 Visited(i, prev, cur) ==
     LET pt == prev \div Span(i)
@@ -79,6 +87,7 @@ Advance(T) ==
 
 Next == \/ \E t \in Timers, d \in 0 .. MaxTime : Schedule(t, d)
         \/ \E t \in Timers : Deschedule(t)
+        \/ \E t \in Timers, d \in 0 .. MaxTime : Extend(t, d)
         \/ \E T \in 1 .. MaxTime : Advance(T)
 Spec == Init /\ [][Next]_vars
 
